@@ -52,7 +52,7 @@ def gen_knobs(rng, cls):
 
 
 def gen_json_opts(rng):
-    return {'indent': rng.choice([None, None, 0, 1, 2, 4, 8, '\t', '  ']), 'sort_keys': rng.random() < 0.3}
+    return {'indent': rng.choice([None, None, 0, 1, 2, 4, 8, '\t', '  ', 12, '--', '\t\t']), 'sort_keys': rng.random() < 0.3}
 
 
 def gen_yaml_opts(rng, bare=False):
@@ -64,9 +64,9 @@ def gen_yaml_opts(rng, bare=False):
             o['default_flow_style'] = rng.choice([None, True])
         return o
     if rng.random() < 0.4:
-        o['indent'] = rng.choice([None, 2, 3, 4, 8])
+        o['indent'] = rng.choice([None, 2, 3, 4, 8, 1, 9, 10, 12])
     if rng.random() < 0.4:
-        o['width'] = rng.choice([None, 5, 20, 80, 200])
+        o['width'] = rng.choice([None, 5, 20, 80, 200, 1, 2, 10**6])
     if rng.random() < 0.5:
         o['allow_unicode'] = rng.random() < 0.5
     if rng.random() < 0.45:
